@@ -190,15 +190,17 @@ impl Commands {
     /// Removes the requested command.
     pub fn remove(&mut self, name: &str) -> bool {
         let command_name = match self.aliases.get(name) {
-            Some(ref value) => value,
-            None => name,
+            Some(value) => value.to_string(),
+            None => name.to_string(),
         };
 
-        match self.commands.remove(command_name) {
+        match self.commands.remove(&command_name) {
             Some(command) => {
                 let aliases = command.aliases();
                 for alias in &aliases {
-                    self.aliases.remove(alias);
+                    if self.aliases.get(alias) == Some(&command_name) {
+                        self.aliases.remove(alias);
+                    }
                 }
 
                 true
